@@ -61,6 +61,8 @@ func (c *configQuoteAwarePostProcessors) PostProcessProperties(properties []*com
 			}
 
 			if useDefaultValue {
+				//an empty map or list counts as absent: it must not be spliced into the tag as "{}" / "[]"
+				expVal = nil
 				var defaultValue string
 				if len(spExp) == 2 {
 					defaultValue = spExp[1]
